@@ -78,6 +78,29 @@ def make_generator(t, spec, model):
             yield st.finalize(t.add_links([(O.arg(s), O.arg(x)) for s, x in spec["links"]]))
 
         return one()
+    if k == "edit":
+        def one():
+            from traph.traph import TraphException
+            from traph.traph_iterator_state import TraphIteratorState
+
+            st = TraphIteratorState()
+            e = spec["edit"]
+            try:
+                if e == "move":
+                    r_ = t.move_prefix_to_webentity(O.arg(spec["prefix"]), spec["to"])
+                elif e == "remove":
+                    r_ = t.remove_prefix_from_webentity(O.arg(spec["prefix"]))
+                elif e == "add":
+                    r_ = t.add_prefix_to_webentity(O.arg(spec["prefix"]), spec["to"])
+                elif e == "create":
+                    r_ = t.create_webentity([O.arg(spec["prefix"])]).created_webentities
+                else:
+                    raise ValueError(e)
+            except TraphException:
+                r_ = "refused"
+            yield st.finalize(r_)
+
+        return one()
     raise ValueError(k)
 
 
@@ -244,6 +267,17 @@ def bind_tasks(task_specs, model):
     out = []
     for spec in task_specs:
         s = dict(spec)
+        if s["kind"] == "edit":
+            if s["edit"] in ("move", "add"):
+                w = model.resolve(O.dec(s["ref"])) if s.get("ref") else None
+                if w is None:
+                    ws = model.weids()
+                    if not ws:
+                        continue
+                    w = ws[-1]
+                s["to"] = w
+            out.append(s)
+            continue
         if s["kind"].startswith("we_"):
             w = model.resolve(O.dec(s["ref"]))
             if w is None:
@@ -333,6 +367,22 @@ def run_C16(case):
                 sch.last = tk.id
                 sch.wrote_last = len(sut.disk.log) > mark
                 snaps.append(snapshot(sut))
+                # per-step invariants on the raw stores: whatever a step does, it never loses
+                # a page, a crawled mark or a link, and only a webentity edit may change or
+                # remove an attachment that already exists
+                b_, a_ = snaps[-2], snaps[-1]
+                res.evals["C16.step_monotone"] += 1
+                lost_pages = [l for l in b_["pages"] if l not in a_["pages"]]
+                uncrawled = [l for l, c in b_["pages"].items() if c and l in a_["pages"] and not a_["pages"][l]]
+                lost_out = [k_ for k_, v_ in b_["out"].items() if a_["out"].get(k_, 0) < v_]
+                lost_in = [k_ for k_, v_ in b_["in"].items() if a_["in"].get(k_, 0) < v_]
+                if lost_pages or uncrawled or lost_out or lost_in:
+                    raise Fail("C16.step_monotone", "scheduler step %d (task %s, %s) lost stored data: pages %s, crawled marks %s, outbound links %s, inbound links %s; schedule %s" % (step_no, tk.id, tk.spec["kind"], short(lost_pages), short(uncrawled), short(lost_out), short(lost_in), short(sch.schedule, 300)))
+                changed = [(q_, w_, a_["pref"].get(q_)) for q_, w_ in b_["pref"].items() if a_["pref"].get(q_) != w_]
+                if changed:
+                    allowed = tk.spec["kind"] == "edit" and all(q_ == O.dec(tk.spec["prefix"]) for q_, _, _ in changed)
+                    if not allowed:
+                        raise Fail("C16.step_attachments", "scheduler step %d (task %s, %s) changed or removed existing webentity attachments %s; schedule %s" % (step_no, tk.id, tk.spec["kind"], short(changed), short(sch.schedule, 300)))
             res.stats["sched_steps"] += step_no
             res.stats["context_switch"] += switches
             res.stats["context_switch_after_write"] += switches_after_write
@@ -488,6 +538,14 @@ def run_C16(case):
                         if x_ != w0 and any(q_.startswith(p_) and len(q_) > len(p_) for p_ in prefs) and all(sn["pref"].get(q_) == x_ for sn in life):
                             stable.add(x_)
                     some_k = set.union(*[kids(sn) for sn in life])
+                    # the library's walk also reports whatever other webentity sits on a given start
+                    # prefix itself (possible only when an edit moved that prefix away from W while or
+                    # before the query ran: "the prefixes are supposed to match the webentity id")
+                    for sn in life:
+                        for p_ in prefs:
+                            x_ = sn["pref"].get(p_)
+                            if x_ is not None and x_ != w0:
+                                some_k.add(x_)
                     got_k = set(tk.result)
                     res.evals["C16.children_complete"] += 1
                     if stable - got_k:
@@ -575,7 +633,7 @@ def run_C16(case):
                             raise Fail("C16.network_tallies", "network query counts %d pages for webentity %r, only %d ever qualified" % (tot, a, len(cand)))
                     if first[key] != lastq[key]:
                         res.probes["network_query_overlapped_link_writes"] += 1
-            writers = [tk for tk in tasks if tk.spec["kind"] in ("batch", "rule", "add_page", "add_links")]
+            writers = [tk for tk in tasks if tk.spec["kind"] in ("batch", "rule", "add_page", "add_links", "edit")]
             if switches and len(tasks) >= 2:
                 res.nontrivial = True
             if not writers:
@@ -628,6 +686,8 @@ def gen_C16_focused(rng, tier, seed):
     ops_.append({"op": "add_links", "links": links})
     if rng.random() < 0.4:
         ops_.append({"op": "create_we", "prefixes": [O.enc(site + rng.choice(secs))]})
+    if rng.random() < 0.6:
+        ops_.append({"op": "create_we", "prefixes": ["a:s:http|h:com|h:elsewhere|"]})
     case = {
         "prop": "C16",
         "seed": seed,
@@ -666,6 +726,10 @@ def gen_C16_focused(rng, tier, seed):
         q2 = dict(q)
         q2["id"] = tid()
         tasks.append(q2)
+    for _ in range(rng.choice([0, 0, 1, 1, 2])):
+        e = rng.choice(["move", "remove", "add", "create"])
+        px = rng.choice([site, site, site + rng.choice(secs), P()])
+        tasks.append({"id": tid(), "kind": "edit", "edit": e, "prefix": O.enc(px), "ref": O.enc(rng.choice([site, b"s:http|h:com|h:elsewhere|"]))})
     rng.shuffle(tasks)
     case["tasks"] = tasks
     name = rng.choice(POLICIES[:5] + ("uniform", "switch_after_write"))
@@ -695,7 +759,7 @@ def gen_C16(rng, tier, seed):
     if rng.random() < 0.85:
         kinds.append("batch")
     while len(kinds) < ntasks:
-        kinds.append(wchoice(rng, {"batch": 3, "rule": 1.5, "we_pages": 2, "network": 2, "add_page": 0.7, "add_links": 0.7, "network_slow": 0.8, "we_pagelinks": 1.2, "we_children": 0.7, "we_crawled_pages": 0.4, "we_most_linked": 0.6, "we_outlinks": 0.7, "we_inlinks": 0.7}))
+        kinds.append(wchoice(rng, {"batch": 3, "rule": 1.5, "we_pages": 2, "network": 2, "add_page": 0.7, "add_links": 0.7, "edit": 0.8, "network_slow": 0.8, "we_pagelinks": 1.2, "we_children": 0.7, "we_crawled_pages": 0.4, "we_most_linked": 0.6, "we_outlinks": 0.7, "we_inlinks": 0.7}))
     rng.shuffle(kinds)
     for k in kinds:
         if k == "batch":
@@ -727,6 +791,9 @@ def gen_C16(rng, tier, seed):
             tasks.append(spec)
         elif k in ("network", "network_slow"):
             tasks.append({"id": tid(), "kind": k, "out": rng.random() < 0.5, "auto": rng.random() < 0.5})
+        elif k == "edit":
+            px = rng.choice(g.created_prefixes) if g.created_prefixes and rng.random() < 0.6 else g.prefix()
+            tasks.append({"id": tid(), "kind": "edit", "edit": rng.choice(["move", "remove", "add", "create"]), "prefix": O.enc(px), "ref": O.enc(g.ref())})
         elif k == "add_page":
             tasks.append({"id": tid(), "kind": "add_page", "lru": O.enc(g.lru()), "crawled": rng.random() < 0.5})
         elif k == "add_links":
